@@ -27,8 +27,10 @@ REAL = ['pcbasic.basic (whole package) incl. state.save_session/load_session, In
         'host tmpfs for program files and state files']
 STUB = ['typist (scripted through the input queue)', 'wall clock (simulated)', 'video/audio back ends (recording queues)']
 ASSUMPTIONS = [
-    'suspension points judged for equality are statement boundaries (polls made by the statement loop); '
-    'a QUIT inside a blocking statement is only required not to crash and to let the program finish',
+    'suspension points judged for full equality are statement boundaries (polls made by the statement loop); '
+    'a QUIT inside a blocking statement (INPUT or LINE INPUT waiting for the user, nothing typed yet) is required '
+    'not to crash, to let the program finish and to leave the same final variables and files - output and '
+    'screen are not compared there, as the prompt may legitimately show again',
     'programs do not print clock values, so outputs are schedule-independent',
 ]
 BATCH = 6
@@ -255,8 +257,11 @@ def gen(rng, tier, prop):
                 ops.append({'op': 'quit', 'frac': round(rng.random(), 4)})
             elif r < 0.85:
                 ops.append({'op': 'quit2', 'frac': round(rng.random(), 4), 'frac2': round(rng.random(), 4)})
-            else:
+            elif r < 0.93:
                 ops.append({'op': 'quit_mid', 'frac': round(rng.random(), 4)})
+            else:
+                # a suspension between statements, then one inside a blocking statement of the resumed session
+                ops.append({'op': 'quit_bm', 'frac': round(rng.random(), 4), 'k2': rng.randint(1, 4)})
     if rng.random() < 0.25:
         ops.append({'op': 'corrupt', 'positions': [round(rng.random(), 5) for _ in range(12)], 'xor': rng.randint(1, 255),
                     'stride': 1 if tier == 'thorough' else 9, 'offset': rng.randint(0, 8)})
@@ -486,6 +491,20 @@ def run(case):
             if taken and b'\nEND ' not in gout and b'\nEND ' in rout:
                 run.violate('C40', 'mid-statement-resume-does-not-finish', '%s: program did not reach its END marker after resume' % label)
                 return False
+            # ... and the blocking statements of these programs (INPUT, LINE INPUT waiting for the user) have done
+            # nothing yet when they wait: whether the prompt shows twice is not judged, the data the program
+            # ends up with is
+            if taken and taken[-1].fired and not gsnap['stalled']:
+                if gsnap['vars'] != rsnap['vars']:
+                    diff = {k: (rsnap['vars'][k], gsnap['vars'][k]) for k in rsnap['vars'] if rsnap['vars'][k] != gsnap['vars'][k]}
+                    run.violate('C40', 'mid-statement-resume:variables-differ',
+                                '%s: final variables differ (reference, resumed): %r' % (label, diff))
+                    return False
+                if gsnap['files'] != rsnap['files']:
+                    names = [k for k in set(rsnap['files']) | set(gsnap['files']) if rsnap['files'].get(k) != gsnap['files'].get(k)]
+                    run.violate('C40', 'mid-statement-resume:files-differ', '%s: host files differ: %r' % (label, {
+                        k: (rsnap['files'].get(k), gsnap['files'].get(k)) for k in sorted(names)[:3]}))
+                    return False
             return True
 
         for op in case['ops']:
@@ -504,6 +523,13 @@ def run(case):
                     kk = 1 + int(op['frac'] * M)
                     run.probe('mid_statement_suspensions')
                     if not attempt([('m', kk)], 'suspend inside a blocking statement, wait poll %d of %d' % (kk, M), judge=False):
+                        return
+            elif k == 'quit_bm':
+                if M:
+                    k1 = 1 + int(op['frac'] * B)
+                    run.probe('boundary_then_mid_statement_suspensions')
+                    if not attempt([('b', k1), ('m', op['k2'])],
+                                   'suspend at boundary poll %d, then inside a blocking statement at its wait poll %d' % (k1, op['k2']), judge=False):
                         return
             elif k == 'sweep':
                 for kk in range(1, min(B, 400) + 1):
